@@ -340,7 +340,14 @@ func (s *genState) randomTx() {
 				}
 			}()
 		}
-		if s.g.Emit("propose %d %s", id, s.budgets()) == "accept" {
+		line := fmt.Sprintf("propose %d %s", id, s.budgets())
+		if r.Chance(20) { // an ELIP: exactly two budgets, no normal payment (most generated lists violate that)
+			line = fmt.Sprintf("propose %d %s elip", id, s.budgets())
+			if r.Chance(70) {
+				line = fmt.Sprintf("propose %d 0:0:%d,2:1:%d elip", id, int64(r.Pick(1, 100, 3000))*ela, int64(r.Pick(0, 1, 2000))*ela)
+			}
+		}
+		if s.g.Emit("%s", line) == "accept" {
 			s.ids = append(s.ids, id)
 			// the council reviews in the following block (a review in the block of the proposal is lost)
 			for m := 0; m < nMembers; m++ {
